@@ -257,11 +257,11 @@ def hier(w, k, share, deep, thru):
 
 
 # ------------------------------------------------------------------ T7 construction styles
-@harness("C01", also=("C06", "C11"), args="style: int, which: int, w: int", pre=["0 <= style <= 3", "0 <= which <= 3", "1 <= w <= 2"],
-         tiers={"quick": {"timeout": 170, "parts": parts_over("style", range(4))},
-                "thorough": {"timeout": 600, "parts": parts_product(parts_over("style", range(4)), parts_over("which", range(4)))}},
+@harness("C01", also=("C06", "C11"), args="style: int, which: int, w: int", pre=["0 <= style <= 5", "0 <= which <= 4", "1 <= w <= 2"],
+         tiers={"quick": {"timeout": 170, "parts": parts_over("style", range(6))},
+                "thorough": {"timeout": 600, "parts": parts_product(parts_over("style", range(6)), parts_over("which", range(5)))}},
          sample=(1, 0, 2),
-         bounds="procedural (connect()), procedural (attribute assignment), class-body with call syntax, inside a generator - each on 4 mixed designs (slices+port refs, bundles, arrays, hierarchy); w<=2",
+         bounds="procedural (connect()), procedural (attribute assignment), class-body with call syntax, inside a generator, anonymous bundles in dict shorthand, every bundle instance flipped - each on 5 mixed designs (slices+port refs, bundles, arrays, hierarchy); w<=2",
          generalises="width; style/design selectors", outside="")
 def styles(style, which, w):
     if which == 0:
@@ -270,7 +270,9 @@ def styles(style, which, w):
         top = _t3(3, 6, w)
     elif which == 2:
         top = _t4(2, w, 1, 1)
-    else:
+    elif which == 3:
         top = _t6(w, 0, True, False, True)
-    st = ("proc", "proc", "class", "gen")[style]
-    return dc.run(top, style=st, setattr_conns=(style == 1))
+    else:
+        top = _t3(4, 5, w)
+    st = ("proc", "proc", "class", "gen", "proc", "proc")[style]
+    return dc.run(top, style=st, setattr_conns=(style == 1), dict_anon=(style == 4), flip=(style == 5))
